@@ -1,4 +1,5 @@
 import NbioVerif.Properties.C01
+import NbioVerif.Lemmas.SrcBridgeConn
 #print axioms ConnFull.inv_run
 #print axioms ConnFull.c01_integrity
 #print axioms ConnFull.c01_drained
@@ -9,3 +10,4 @@ import NbioVerif.Properties.C01
 #print axioms ConnFull.c01_return_sendfile
 #print axioms ConnFull.c01_error_sendfile
 #print axioms ConnFull.c01_flush_transmits_only
+#print axioms ConnFull.src_maxCache
